@@ -381,6 +381,10 @@ func (p *contractParser) line(t string, no int) error {
 			g.Sort = "Bool"
 			g.Init = "false"
 		}
+		if fs[2] == "array" {
+			g.Sort = "(Array Int Int)"
+			g.Init = "((as const (Array Int Int)) 0)"
+		}
 		if fs[0] == "field" {
 			if strings.Count(g.Name, ".") == 1 && !strings.HasPrefix(g.Name, "*.") {
 				g.Name = p.pkg.Name() + "." + g.Name
